@@ -140,12 +140,12 @@ public:
   /// vectors.
   Angle(const PlanarVector<NumericType>& planar_vector_1,
         const PlanarVector<NumericType>& planar_vector_2)
-    : Angle(std::acos(planar_vector_1.Dot(planar_vector_2)
+    : Angle(ArcCosine(planar_vector_1.Dot(planar_vector_2)
                       / (planar_vector_1.Magnitude() * planar_vector_2.Magnitude()))) {}
 
   /// \brief Constructor. Constructs an angle by computing the angle between two given vectors.
   Angle(const Vector<NumericType>& vector1, const Vector<NumericType>& vector2)
-    : Angle(std::acos(vector1.Dot(vector2) / (vector1.Magnitude() * vector2.Magnitude()))) {}
+    : Angle(ArcCosine(vector1.Dot(vector2) / (vector1.Magnitude() * vector2.Magnitude()))) {}
 
   /// \brief Constructor. Constructs an angle by computing the angle between a given planar vector
   /// and planar direction.
@@ -340,6 +340,19 @@ private:
   /// unit.
   explicit constexpr Angle(const NumericType value)
     : DimensionalScalar<Unit::Angle, NumericType>(value) {}
+
+  /// \brief Arc cosine of the cosine of the angle between two vectors. Rounding can push the
+  /// computed cosine of (nearly) parallel or antiparallel vectors marginally outside [-1, 1]; it is
+  /// clamped to that interval so that the result is an angle in [0, π] rather than NaN.
+  [[nodiscard]] static NumericType ArcCosine(const NumericType cosine) noexcept {
+    if (cosine > static_cast<NumericType>(1)) {
+      return std::acos(static_cast<NumericType>(1));
+    }
+    if (cosine < static_cast<NumericType>(-1)) {
+      return std::acos(static_cast<NumericType>(-1));
+    }
+    return std::acos(cosine);
+  }
 };
 
 template <typename NumericType>
